@@ -82,6 +82,11 @@ def apparent_error(c, o):
     for j in (2, 3):
         got = float(ec.parse_exact(row["r"][j]["x"]))
         worst = max(worst, abs(got - math.sqrt(float(want[j]))) / size)
+    if len(a) == 2 and len(row["r"]) > 4 and a != b:        # the perpendicular distance to the LINE through a and b
+        ab, ac = sub(b, a), sub(cc, a)
+        cr = ab[0] * ac[1] - ab[1] * ac[0]
+        got = float(ec.parse_exact(row["r"][4]["x"]))
+        worst = max(worst, abs(got - math.sqrt(float(cr * cr / dot(ab, ab)))) / size)
     g0, g1 = float(ec.parse_exact(row["r"][0]["x"])), float(ec.parse_exact(row["r"][1]["x"]))
     worst = max(worst, abs(g0 - g1) / size)                      # asymmetry of the segment-segment result
     lo = min(math.sqrt(float(ptseg(a, cc, d))), math.sqrt(float(ptseg(b, cc, d))), math.sqrt(float(ptseg(cc, a, b))),
@@ -90,9 +95,39 @@ def apparent_error(c, o):
     return worst
 
 
+def far_on_line(seed, n, dim):
+    """c exactly on (or one step off) the LINE through a and b, far away from a: |ab| of a few hundred to a few thousand,
+    c = a + t (b - a) with t up to the edge of the 2^16 / 2^20 grid - the class on which a formula that subtracts two
+    squared lengths loses everything (the distance is 0 or tiny, the operands are 2^40)."""
+    r = random.Random(seed * 97 + dim)
+    out = []
+    while len(out) < n:
+        G = r.choice([1 << 14, 1 << 16, 1 << 20])
+        a = [r.randrange(-G, G) for _ in range(dim)]
+        u = [r.randrange(-3000, 3001) for _ in range(dim)]
+        if not any(u):
+            continue
+        b = [x + y for x, y in zip(a, u)]
+        tmax = min((G - abs(x)) // max(1, abs(y)) if y else 1 << 30 for x, y in zip(a, u))
+        if tmax < 4:
+            continue
+        t = r.choice([-1, 1]) * r.randrange(max(2, tmax // 2), tmax + 1)
+        c = [x + t * y for x, y in zip(a, u)]
+        if r.random() < 0.4:
+            c[r.randrange(dim)] += r.choice([-1, 1])
+        d = [x + r.randrange(-50, 51) for x in c]
+        if d == c:
+            d[0] += 1
+        if max(abs(v) for p in (a, b, c, d) for v in p) > (1 << 20) + 4000:
+            continue
+        out.append(dict(seg=[a, b, c, d], fam="far-on-line"))
+    return out
+
+
 def screened(ctx, op, n_pool, n_keep):
     dim = 2 if op == "x2" else 3
     pool = [dict(c, op=op) for c in ec.seg_pairs(ctx.seed + 5 + dim, n_pool, grids=(1 << 12, 1 << 16, 1 << 20), dim=dim)]
+    pool += [dict(c, op=op) for c in far_on_line(ctx.seed, n_pool // 2, dim)]
     obs = list(vlib.run_driver(ctx, "distx", [dict(op=op, segs=[c["seg"]]) for c in pool], for_tlc=False))
     scored = sorted(((apparent_error(c, o), i) for i, (c, o) in enumerate(zip(pool, obs))), key=lambda t: -t[0])
     ctx.coverage_extra.setdefault("screened_pool", []).append(
@@ -120,6 +155,7 @@ def run(ctx, verdict):
     big = []
     for op, dim in (("x2", 2), ("x3", 3)):
         big += [dict(c, op=op) for c in ec.seg_pairs(ctx.seed + dim, n, grids=(1 << 10, 1 << 16, 1 << 20), dim=dim)]
+        big += [dict(c, op=op) for c in far_on_line(ctx.seed + 9, 6 if ctx.quick else 60, dim)]
         big += screened(ctx, op, 4000 if ctx.quick else 60000, 12 if ctx.quick else 150)
     vlib.note_cases(ctx, big)
     big_pipe(ctx, verdict, big)
